@@ -19,3 +19,6 @@ META = {
   "technique": "runtime monitor: output snapshots vs list-slicing oracle, "
                "exhaustive small space + random cases",
 }
+
+# EXTENSION families added after the seeded-change rounds
+META["rule"] += (" Added after the seeded-change rounds: " 'inputs given as deque, as a Sequence supporting integer indexes only, as a block yielded by blocks itself; Stream.blocks called all-positionally' ".")
